@@ -119,6 +119,7 @@ func main() {
 		}
 	}
 	os.Remove(inplace)
+	doneTail := map[string]bool{}
 	other := map[string]string{"insertion": "deletion", "deletion": "insertion"}
 	for _, mode := range []string{"insertion", "deletion"} {
 		// the documented pipeline: gen-test-params | prove | verify
@@ -189,6 +190,21 @@ func main() {
 			emit(fmt.Sprintf("verify\t%s\t%s\t%s\t%s", label[other[mode]], label[mode], h, h), verdict(vr))
 			vr = run([]byte(pr.stdout), "verify", "--mode", mode, "--keys-file", keys[other[mode]], "--input-hash", "0x"+h.Text(16))
 			emit(fmt.Sprintf("verify\t%s\t%s\t%s\t%s", label[other[mode]], label[mode], h, h), verdict(vr))
+			if !doneTail[mode] {
+				// a keys file whose tail is cut off, with a VALID proof: the reader must still fail
+				doneTail[mode] = true
+				full, _ := os.ReadFile(keys[mode])
+				tc := filepath.Join(*dir, "tailcut.keys")
+				for _, cut := range []int{1, 100, 1 + g.Intn(60000)} {
+					os.WriteFile(tc, full[:len(full)-cut], 0o644)
+					expectFail(fmt.Sprintf("verify valid proof with keys cut %d bytes short %s", cut, mode),
+						run([]byte(pr.stdout), "verify", "--mode", mode, "--keys-file", tc, "--input-hash", "0x"+h.Text(16)))
+					expectFail(fmt.Sprintf("export-vk with keys cut %d bytes short %s", cut, mode),
+						run(nil, "export-vk", "--keys-file", tc, "--output", filepath.Join(*dir, "vk.out")))
+				}
+				os.Remove(tc)
+				os.Remove(filepath.Join(*dir, "vk.out"))
+			}
 			if c == 0 {
 				// tampered proofs
 				var pj map[string]interface{}
